@@ -43,6 +43,16 @@ def REC(name):
     return Ty("rec", item=name)
 
 
+def DICT(v):
+    """a Python dict with str keys as the list of its (key, value) pairs in insertion order (no key twice)"""
+    return Ty("dict", item=v)
+
+
+def SUM(a, b):
+    """a value of one of two declared types (values of a dict that holds both): Lean `A ⊕ B`"""
+    return Ty("sum", item=(a, b))
+
+
 EMPTYLIST = Ty("list", item=None)       # the literal `[]` before it meets a typed context
 
 # ----------------------------------------------------------------------------- accepted statement forms (documentation table)
@@ -138,6 +148,10 @@ def lty(t):
         return f"List {P._paren(lty(t.item))}"
     if k == "tuple":
         return " × ".join(P._paren(lty(x)) for x in t.item)
+    if k == "dict":
+        return f"List (String × {P._paren(lty(t.item))})"
+    if k == "sum":
+        return f"{P._paren(lty(t.item[0]))} ⊕ {P._paren(lty(t.item[1]))}"
     return t.lean()
 
 
@@ -149,7 +163,8 @@ class Ctx:
 class FnSM(P.Fn):
     """translation of one imperative function / method / generator under one specialisation"""
 
-    STREAMS = {"rng'": LIST(F64), "pois'": LIST(NAT)}       # hidden streams of the global numpy generator
+    # hidden streams: the global numpy generator; `file'` = the records of the file written through csv.DictWriter
+    STREAMS = {"rng'": LIST(F64), "pois'": LIST(NAT), "file'": LIST(LIST(REC("Cell")))}
 
     def __init__(self, tr, spec, node, relfile, no_rng=False, no_streams=()):
         super().__init__(tr, spec, node, relfile)
@@ -164,6 +179,8 @@ class FnSM(P.Fn):
         self.is_gen = any(isinstance(n, (ast.Yield, ast.YieldFrom)) for n in ast.walk(node))
         self.aliased = set()
         self.yield_ty = spec.get("yields")
+        self.used_opaque_exprs, self.used_cells, self.used_str_injections, self.used_preds = [], [], [], []
+        self.uses_dyn_column = False
         if spec.get("returns") is not None:
             self.ret_ty = spec["returns"]     # declared (Optional) result type: `return None` next to `return x`
         self.extras = []         # env keys returned after the result
@@ -237,6 +254,8 @@ class FnSM(P.Fn):
                         add(self.key_of(n.args[0]))
                     if isinstance(n.func, ast.Attribute) and n.func.attr in MUTATING_METHODS:
                         add(self.key_of(n.func.value))
+                        if isinstance(n.func.value, ast.Subscript):
+                            add(self.key_of(n.func.value.value))        # d[k].append(v) changes the dict d
                     if fn and fn.startswith(("numpy.random.", "np.random.")):
                         kind = fn.split(".")[-1]
                         for st_ in (["pois'"] if kind == "poisson" else ["rng'", "pois'"] if kind == "seed" else ["rng'"]):
@@ -248,6 +267,8 @@ class FnSM(P.Fn):
                     if var is not None:
                         for st_ in var.get("hidden", []):
                             add(st_)
+                    if fn == "csv.DictWriter" or (isinstance(n.func, ast.Attribute) and n.func.attr in ("writerow", "writeheader")):
+                        add("file'")
                 if isinstance(n, ast.For) and self.is_obj_iter(n.iter) is not None:
                     add(self.is_obj_iter(n.iter)[1])
                 if isinstance(n, (ast.Yield, ast.YieldFrom)):
@@ -305,6 +326,21 @@ class FnSM(P.Fn):
             if inj not in self.used_injections:
                 self.used_injections.append((inj, ty.item)) if (inj, ty.item) not in self.used_injections else None
             return f"({inj} {self.to_int(v, node)})"
+        if ty.kind == "sum" and v.ty != ty:
+            for side, t_ in (("Sum.inl", ty.item[0]), ("Sum.inr", ty.item[1])):
+                if v.ty.with_elem(False) == t_ or (t_.kind == "list" and v.ty.kind == "list" and v.ty.item is None):
+                    return f"({side} {self.coerce_sm(v, t_, node)})"
+            self.bad(node, f"a value of type {v.ty} stored where {ty} is expected")
+        if ty.kind == "dict" and v.ty.kind == "emptydict":
+            return f"([] : {lty(ty)})"
+        if ty.kind == "rec" and v.ty.kind == "str" and ty.item in self.spec.get("str_as", {}):
+            inj = self.spec["str_as"][ty.item]       # a str where an opaque value (bytes or str) is expected: opaque injection
+            if (inj, ty.item) not in self.used_str_injections:
+                self.used_str_injections.append((inj, ty.item))
+            return f"({inj} {self.str_code(v)})"
+        if ty.kind == "list" and v.ty.kind == "list" and v.ty.item is not None and v.ty != ty and ty.item.kind == "rec" \
+                and v.ty.item.kind == "str" and ty.item.item in self.spec.get("str_as", {}):
+            return f"(List.map (fun x_ => {self.coerce_sm(Val('x_', STR), ty.item, node)}) {v.code})"
         if ty.kind == "tuple" and v.ty.kind == "tuple" and len(ty.item) == len(v.ty.item) and getattr(v, "parts", None):
             return "(" + ", ".join(self.coerce_sm(x, t, node) for x, t in zip(v.parts, ty.item)) + ")"
         if ty.kind == "tuple" and v.ty.kind == "tuple" and len(ty.item) == len(v.ty.item) and v.ty != ty:
@@ -380,6 +416,8 @@ class FnSM(P.Fn):
         return super().e_UnaryOp(e, env)
 
     def e_Dict(self, e, env):
+        if not e.keys:
+            return Val("[]", Ty("emptydict"))
         # {'>': operator.gt, …}: a table of comparison functions
         ops = {"operator.gt": "gt", "operator.lt": "lt", "operator.ge": "ge", "operator.le": "le", "operator.eq": "eq",
                "operator.ne": "ne"}
@@ -389,7 +427,13 @@ class FnSM(P.Fn):
             if len(set(keys)) != len(keys):
                 self.bad(e, "dict literal with a repeated key")
             return Val("[" + ", ".join(f"({_strlit(k)}, PySM.Cmp.{v})" for k, v in zip(keys, vals)) + "]", Ty("cmpdict"))
-        self.bad(e, "dict literal other than {str: operator.<comparison>}")
+        if e.keys and all(k is not None for k in keys) and "cell_of" in self.spec:
+            # a row for csv.DictWriter: the named cells, in the order written
+            if len(set(keys)) != len(keys):
+                self.bad(e, "dict literal with a repeated key")
+            cells = [self.to_cell(self.expr(v, env), e) for v in e.values]
+            return Val("[" + ", ".join(f"({_strlit(k)}, {c})" for k, c in zip(keys, cells)) + "]", Ty("celldict"))
+        self.bad(e, "dict literal other than {str: operator.<comparison>} / a csv row (TARGETS.cell_of)")
 
     def e_Name(self, e, env):
         if e.id == "self":
@@ -404,6 +448,32 @@ class FnSM(P.Fn):
         if t.kind == "str":
             return Val("[" + ", ".join(self.str_code(v) for v in vs) + "]", LIST(STR))
         return Val("[" + ", ".join(self.coerce_sm(v, t, e) for v in vs) + "]", LIST(t))
+
+    def expr(self, e, env):
+        for pat, o in self.spec.get("opaque_exprs", {}).items():
+            hole = _match_pattern(ast.parse(pat, mode="eval").body, e)
+            if hole is not None:
+                # the whole expression is ONE opaque function of the sub-expression in the hole `_` (the pattern pins the text)
+                v = self.expr(hole, env)
+                code = f"({o['lean']} {self.coerce_sm(v, o['args'][0], e)})"
+                if pat not in self.used_opaque_exprs:
+                    self.used_opaque_exprs.append(pat)
+                if o.get("raises"):
+                    t = self.fresh("t")
+                    self.pending.append((t, code))
+                    return Val(t, o["ret"])
+                return Val(code, o["ret"])
+        return super().expr(e, env)
+
+    def to_cell(self, v, node):
+        """a value stored in a csv row: the opaque injection of its type into `Cell` (TARGETS.cell_of)"""
+        inj = self.spec.get("cell_of", {}).get(str(v.ty.with_elem(False)))
+        if inj is None:
+            self.bad(node, f"a cell of type {v.ty} (no injection in TARGETS.cell_of)")
+        if (inj, v.ty.with_elem(False)) not in self.used_cells:
+            self.used_cells.append((inj, v.ty.with_elem(False)))
+        code = self.str_code(v) if v.ty.kind == "str" else v.code
+        return f"({inj} {code})"
 
     def e_Tuple(self, e, env):
         if any(isinstance(x, ast.Constant) and x.value is None for x in e.elts):
@@ -506,6 +576,14 @@ class FnSM(P.Fn):
         return Val(t, v.ty.item)
 
     def e_BinOp(self, e, env):
+        if isinstance(e.op, ast.Mult) and isinstance(e.left, ast.List) and len(e.left.elts) == 1:
+            # [x] * n: n references to x (x is not a mutable object here)
+            x, n = self.expr(e.left.elts[0], env), self.expr(e.right, env)
+            if n.ty.kind not in ("nat", "int") or x.ty.kind in ("list", "none"):
+                self.bad(e, f"[{x.ty}] * {n.ty}")
+            cnt = n.code if n.ty.kind == "nat" else f"(Int.toNat {n.code})"
+            code = self.str_code(x) if x.ty.kind == "str" else x.code
+            return Val(f"(List.replicate {cnt} {code})", LIST(x.ty.with_elem(False)))
         if isinstance(e.op, (ast.Div, ast.Mult, ast.Sub)) or (isinstance(e.op, ast.Add)):
             n0 = len(self.pending)
             a0, b0 = self.expr(e.left, env), self.expr(e.right, env)
@@ -558,6 +636,18 @@ class FnSM(P.Fn):
             self.bad(e, f".shape[0] of {a.ty}")
         v = self.expr(e.value, env)
         s = e.slice
+        if isinstance(s, ast.Slice) and s.upper is None and s.step is None and isinstance(s.lower, ast.Constant) \
+                and isinstance(s.lower.value, int) and s.lower.value >= 0 and v.ty.kind == "str" and v.code is not None:
+            return Val(f"(PySM.strDrop {v.code} {s.lower.value})", STR)      # k[n:] on a str
+        dc = self.spec.get("dyn_column")
+        if dc is not None and self.key_of(e.value) == "self.catalog" and not isinstance(s, ast.Constant):
+            kx = self.expr(s, env)
+            if kx.ty.kind != "str":
+                self.bad(e, f"catalog column named by {kx.ty}")
+            self.uses_dyn_column = True     # a column named at run time: opaque, ValueError when there is no such field
+            t = self.fresh("t")
+            self.pending.append((t, f"({dc['lean']} {v.code} {self.str_code(kx)})"))
+            return Val(t, dc["ret"])
         ra = self.spec.get("rec_attrs", {})
         if v.ty.kind == "rec" and isinstance(s, ast.Constant) and isinstance(s.value, str) and s.value in ra.get(v.ty.item, {}):
             ent = (v.ty.item, s.value, ra[v.ty.item][s.value])       # r["key"] on an opaque record: opaque projection
@@ -696,6 +786,18 @@ class FnSM(P.Fn):
         if len(e.ops) == 1 and isinstance(e.ops[0], (ast.Is, ast.IsNot)):
             # identity tests are never elementwise
             return self.compare(e.ops[0], self.expr(e.left, env), self.expr(e.comparators[0], env), e)
+        if len(e.ops) == 1 and isinstance(e.ops[0], (ast.In, ast.NotIn)) and not isinstance(e.comparators[0], ast.Tuple) \
+                and not (isinstance(e.left, ast.Constant) and e.left.value is None):
+            n0, tmp0 = len(self.pending), self.tmp
+            try:
+                a, b = self.expr(e.left, env), self.expr(e.comparators[0], env)
+            except Untranslatable:
+                a = b = None
+            if a is not None and a.ty.kind == "str" and b.ty == LIST(STR):
+                code = f"(List.contains {b.code} {self.str_code(a)})"        # k in [names]
+                return Val(code if isinstance(e.ops[0], ast.In) else f"(!{code})", BOOL)
+            del self.pending[n0:]
+            self.tmp = tmp0
         if len(e.ops) == 1 and isinstance(e.ops[0], (ast.In, ast.NotIn)) and isinstance(e.left, ast.Constant) \
                 and e.left.value is None:
             v = self.expr(e.comparators[0], env)
@@ -762,6 +864,41 @@ class FnSM(P.Fn):
                 self.pending.append((t, code))
                 return Val(t, o["ret"])
             return Val(code, o["ret"])
+        if isinstance(e.func, ast.Attribute) and e.func.attr == "items" and not args and not kw:
+            n0, tmp0 = len(self.pending), self.tmp
+            d = self.expr(e.func.value, env)
+            if d.ty.kind == "dict":
+                return Val(d.code, LIST(TUPLE(STR, d.ty.item)))       # d.items(): the pairs in insertion order
+            del self.pending[n0:]
+            self.tmp = tmp0
+        if fn in ("callable", "hasattr") and not kw and "rec_preds" in self.spec:
+            v = self.expr(args[0], env)
+            pk = "callable" if fn == "callable" and len(args) == 1 else \
+                ("hasattr:" + args[1].value if fn == "hasattr" and len(args) == 2 and isinstance(args[1], ast.Constant)
+                 and isinstance(args[1].value, str) else None)
+            pn = self.spec["rec_preds"].get(v.ty.item if v.ty.kind == "rec" else None, {}).get(pk)
+            if pn is None:
+                self.bad(e, f"{fn} on {v.ty}: no opaque predicate declared (TARGETS.rec_preds)")
+            if (pn, v.ty.item) not in self.used_preds:
+                self.used_preds.append((pn, v.ty.item))
+            return Val(f"({pn} {v.code})", BOOL)
+        if isinstance(e.func, ast.Attribute) and e.func.attr == "startswith" and len(args) == 1 and not kw:
+            n0, tmp0 = len(self.pending), self.tmp
+            a, b = self.expr(e.func.value, env), self.expr(args[0], env)
+            if a.ty.kind == "str" and b.ty.kind == "str" and a.code is not None:
+                return Val(f"(PySM.strStartsWith {a.code} {self.str_code(b)})", BOOL)
+            del self.pending[n0:]
+            self.tmp = tmp0
+        if fn == "list" and len(args) == 1 and not kw:
+            n0, tmp0 = len(self.pending), self.tmp
+            try:
+                v = self.expr(args[0], env)
+            except Untranslatable:
+                v = None
+            if v is not None and v.ty.kind == "list" and v.ty.item is not None:
+                return v            # list(xs) of a list: a copy (lists are values here)
+            del self.pending[n0:]
+            self.tmp = tmp0
         if fn in ("zip_longest", "itertools.zip_longest") and len(args) == 1 and not kw and isinstance(args[0], ast.Starred):
             # zip_longest(*[g()] * k): ONE iterator object k times = its items in groups of k, the last filled with None
             b = args[0].value
@@ -939,6 +1076,14 @@ class FnSM(P.Fn):
             if v.ty.kind == "list":
                 return Val(f"[Py.size {v.code}]", LIST(INT))
             self.bad(e, f"numpy.shape of {v.ty}")
+        if fn == "zip" and len(args) > 2 and not kw:
+            vs = [self.expr(a, env) for a in args]      # zip of k lists: right-nested List.zip (stops at the shortest)
+            if not all(v.ty.kind == "list" and v.ty.item is not None for v in vs):
+                self.bad(e, "zip of " + ", ".join(str(v.ty) for v in vs))
+            code = vs[-1].code
+            for v in reversed(vs[:-1]):
+                code = f"(List.zip {v.code} {code})"
+            return Val(code, LIST(TUPLE(*[v.ty.item for v in vs])))
         if fn == "zip" and len(args) == 2 and not kw:
             a, b = self.expr(args[0], env), self.expr(args[1], env)
             if a.ty.kind == "list" and b.ty.kind == "list" and a.ty.item is not None and b.ty.item is not None:
@@ -1124,11 +1269,16 @@ class FnSM(P.Fn):
         decl = self.spec.get("locals", {}).get(key)
         if decl is None and key.startswith("self."):
             decl = self.self_fields[key[5:]][1]
-        if decl is not None and (v.ty.kind == "none" or (v.ty.kind == "list" and v.ty.item is None)
+        if v.ty.kind == "emptydict" and decl is None:
+            self.bad(node, f"`{key} = {{}}` needs a declared value type (TARGETS.locals)")
+        if decl is not None and (v.ty.kind in ("none", "emptydict") or (v.ty.kind == "list" and v.ty.item is None)
                                  or key.startswith("self.")):
             # the declaration gives the type of `None` / `[]`; any other value keeps its own (more precise) type and is
             # converted where paths meet (branch merge, loop state)
             v = Val(self.coerce_sm(v, decl, node), decl)
+        if decl is not None and decl.kind == "list" and decl.item.kind == "rec" and v.ty.kind == "list" and v.ty != decl \
+                and v.ty.item is not None:
+            v = Val(self.coerce_sm(v, decl, node), decl)      # e.g. [''] * n where ids (bytes or str) are declared
         if v.ty.kind == "list" and v.ty.item is None:
             self.bad(node, f"`{key} = []` needs a declared element type (TARGETS.locals)")
         if (v.ty.kind == "none" and decl is None) or (v.code is None and v.is_static and v.ty.kind in ("class", "str")):
@@ -1226,6 +1376,20 @@ class FnSM(P.Fn):
             if len(s.targets) != 1:
                 self.bad(s, "multiple assignment targets")
             t = s.targets[0]
+            if isinstance(t, ast.Name) and isinstance(s.value, ast.Call) and dotted(s.value.func) == "csv.DictWriter":
+                # writer = csv.DictWriter(<the open file>, fieldnames=<list of str>, delimiter=','): rows go to the stream file'
+                cw = s.value
+                kws = {k_.arg: k_.value for k_ in cw.keywords}
+                if len(cw.args) != 1 or not (isinstance(cw.args[0], ast.Name) and cw.args[0].id in env
+                                             and env[cw.args[0].id].ty.kind == "file") or set(kws) != {"fieldnames", "delimiter"} \
+                        or not (isinstance(kws["delimiter"], ast.Constant) and kws["delimiter"].value == ","):
+                    self.bad(s, "csv.DictWriter other than DictWriter(<open file>, fieldnames=…, delimiter=',')")
+                fnames = self.expr(kws["fieldnames"], env)
+                if fnames.ty != LIST(STR):
+                    self.bad(s, f"fieldnames of type {fnames.ty}")
+                env2 = dict(env)
+                env2[t.id] = Val(fnames.code, Ty("dictwriter"))
+                return self.pre(pad) + go(env2)
             if isinstance(t, ast.Name) and t.id in self.spec.get("ignore_locals", []):
                 self.check_ignored(t.id, s)
                 return go(env)       # a message text: not evaluated
@@ -1294,6 +1458,16 @@ class FnSM(P.Fn):
                 tmp = self.fresh("a")
                 self.pending.append((tmp, f"(PySM.NdArr.setAt {cur.code} [{', '.join(ics)}] {newv})"))
                 return self.rebind(key, Val(tmp, cur.ty), env, go, pad, s)
+            if isinstance(t, ast.Subscript) and self.key_of(t.value) in env and env[self.key_of(t.value)].ty.kind == "dict" \
+                    and not isinstance(t.slice, ast.Slice):
+                # d[k] = v: the value of an existing key is replaced where it stands, a new key goes to the end
+                key = self.key_of(t.value)
+                cur = env[key]
+                kx = self.expr(t.slice, env)
+                if kx.ty.kind != "str":
+                    self.bad(s, f"dict key of type {kx.ty}")
+                return self.rebind(key, Val(f"(PySM.dictSet {cur.code} {self.str_code(kx)} {self.coerce_sm(v, cur.ty.item, s)})",
+                                            cur.ty), env, go, pad, s)
             if isinstance(t, ast.Subscript):
                 key = self.key_of(t.value)
                 self.check_inplace(key, env, s)
@@ -1370,6 +1544,28 @@ class FnSM(P.Fn):
                 return pre0 + f"{pad}Except.bind {call} fun {r} =>\n{lets}" + self.blk(rest, env2, k, ind, ctx)
             if fn == "print":
                 return go(env)       # output only: a no-op (its arguments are not evaluated)
+            if isinstance(c.func, ast.Attribute) and isinstance(c.func.value, ast.Name) and c.func.value.id in env \
+                    and env[c.func.value.id].ty.kind == "dictwriter" and c.func.attr in ("writeheader", "writerow") and not c.keywords:
+                w = env[c.func.value.id]
+                self.used_streams.add("file'")
+                hdr_inj = self.spec.get("cell_of", {}).get("str")
+                if hdr_inj is None:
+                    self.bad(s, "csv writer without a cell injection for str (TARGETS.cell_of)")
+                if (hdr_inj, STR) not in self.used_cells:
+                    self.used_cells.append((hdr_inj, STR))
+                if c.func.attr == "writeheader" and not c.args:
+                    # the header record: the field names themselves
+                    return self.rebind("file'", Val(f"(PySM.append {env[chr(102) + 'ile' + chr(39)].code} (List.map {hdr_inj} {w.code}))",
+                                                   self.STREAMS["file'"]), env, go, pad, s)
+                if c.func.attr == "writerow" and len(c.args) == 1:
+                    d = self.expr(c.args[0], env)
+                    if d.ty.kind != "celldict":
+                        self.bad(s, f"writerow of {d.ty}")
+                    r = self.fresh("r")
+                    self.pending.append((r, f"(PySM.dictRow {w.code} {d.code} ({hdr_inj} \"\"))"))
+                    return self.rebind("file'", Val(f"(PySM.append {env[chr(102) + 'ile' + chr(39)].code} {r})", self.STREAMS["file'"]),
+                                       env, go, pad, s)
+                self.bad(s, f"csv writer call {c.func.attr}")
             if fn == "warnings.warn":
                 return go(env)       # a warning under the default filters: a no-op (its arguments are not evaluated)
             mc = self.mut_call(c, env, s)
@@ -1399,6 +1595,20 @@ class FnSM(P.Fn):
                 op_ = "addAt" if idx.ty == LIST(NAT) else "addAtI"
                 self.pending.append((tmp, f"(PySM.{op_} {cur.code} {idx.code} {self.coerce_sm(val, NAT, s)})"))
                 return self.rebind(key, Val(tmp, cur.ty), env, go, pad, s)
+            if isinstance(c.func, ast.Attribute) and c.func.attr == "append" and len(c.args) == 1 and not c.keywords \
+                    and isinstance(c.func.value, ast.Subscript) and self.key_of(c.func.value.value) in env \
+                    and env[self.key_of(c.func.value.value)].ty.kind == "dict":
+                # d[k].append(v): KeyError without the key, AttributeError when the entry is not the list kind
+                key = self.key_of(c.func.value.value)
+                cur = env[key]
+                kx = self.expr(c.func.value.slice, env)
+                st_ = cur.ty.item
+                if kx.ty.kind != "str" or st_.kind != "sum" or st_.item[1].kind != "list":
+                    self.bad(s, f"append to an entry of {cur.ty}")
+                v = self.expr(c.args[0], env)
+                tmp = self.fresh("d")
+                self.pending.append((tmp, f"(PySM.dictAppend {cur.code} {self.str_code(kx)} {self.coerce_sm(v, st_.item[1].item, s)})"))
+                return self.rebind(key, Val(tmp, cur.ty), env, go, pad, s)
             if isinstance(c.func, ast.Attribute) and c.func.attr in MUTATING_METHODS and len(c.args) == 1 and not c.keywords:
                 key = self.key_of(c.func.value)
                 self.check_inplace(key, env, s)
@@ -1420,10 +1630,32 @@ class FnSM(P.Fn):
                 self.bad(s, "with statement other than `with open(<file parameter>, …) as f`")
             env2 = dict(env)
             env2[it.optional_vars.id] = Val(None, Ty("file"), static="<file>")
+            oc = it.context_expr
+            if len(oc.args) == 2 and "file'" in env:
+                # open(<file parameter>, mode, newline=''): the file as the list of its records — 'a' keeps them, 'w' starts empty
+                if [k_.arg for k_ in oc.keywords] != ["newline"] or not (isinstance(oc.keywords[0].value, ast.Constant)
+                                                                       and oc.keywords[0].value.value == ""):
+                    self.bad(s, "a file opened for csv writing without newline=''")
+                mode = self.expr(oc.args[1], env)
+                if mode.ty.kind != "str":
+                    self.bad(s, f"open mode of type {mode.ty}")
+                pre = self.pre(pad)
+                fv = self.fresh("f")
+                self.used_streams.add("file'")
+                env2["file'"] = Val(fv, self.STREAMS["file'"])
+                return (pre + f"{pad}Except.bind (PySM.openForWrite {self.str_code(mode)} {env[chr(102) + 'ile' + chr(39)].code}) fun {fv} =>\n"
+                        + self.blk(list(s.body) + rest, env2, k, ind, ctx))
+            if len(oc.args) != 1 and not (len(oc.args) == 2 and isinstance(oc.args[1], ast.Constant) and oc.args[1].value in ("r", "rt")):
+                self.bad(s, "open(…) with a mode other than reading (no csv writer in this function)")
             return self.blk(list(s.body) + rest, env2, k, ind, ctx)
         if isinstance(s, ast.Try):
             if len(s.body) == 1 and len(s.handlers) == 1 and s.handlers[0].type is not None and not s.orelse and not s.finalbody:
                 return self.s_try_catch(s, rest, env, k, ind, ctx)
+            if len(s.body) == 1 and len(s.handlers) == 1 and s.handlers[0].type is None and not s.orelse \
+                    and len(s.handlers[0].body) == 1 and isinstance(s.handlers[0].body[0], ast.Pass):
+                # try: x = E / except: pass / finally: F — every exception of E is caught and x keeps its value, the handler
+                # cannot raise, so F simply runs next
+                return self.s_try_catch(s, list(s.finalbody) + rest, env, k, ind, ctx)
             return self.s_dead_try(s, rest, env, k, ind, ctx)
         if isinstance(s, ast.If):
             return self.s_if(s, rest, env, k, ind, ctx)
@@ -1451,28 +1683,52 @@ class FnSM(P.Fn):
         h = s.handlers[0]
         if h.name is not None:
             self.bad(s, "`except … as e`")
-        classes = [dotted(x) for x in (h.type.elts if isinstance(h.type, ast.Tuple) else [h.type])]
+        classes = [] if h.type is None else [dotted(x) for x in (h.type.elts if isinstance(h.type, ast.Tuple) else [h.type])]
         known = ("ValueError", "IndexError", "AssertionError", "StopIteration", "TypeError", "AttributeError", "KeyError",
                  "OSError", "IOError", "EnvironmentError", "RuntimeError")
         if any(c not in known for c in classes):
             self.bad(s, f"except clause names {classes}: only {known} are distinguished")
         st = s.body[0]
-        if not (isinstance(st, ast.Assign) and len(st.targets) == 1 and isinstance(st.targets[0], ast.Name)
-                and isinstance(st.value, ast.Call) and self.spec.get("opaque", {}).get(dotted(st.value.func), {}).get("raises")):
-            self.bad(s, "try body other than `x = <opaque raising call>(…)`")
+        if not (isinstance(st, ast.Assign) and len(st.targets) == 1 and isinstance(st.targets[0], ast.Name)):
+            self.bad(s, "try body other than `x = <expression with one operation that can raise>`")
         pre0 = self.pre(pad)
         n0 = len(self.pending)
         v = self.expr(st.value, env)
-        if len(self.pending) != n0 + 1 or self.pending[-1][0] != v.code:
-            self.bad(s, "the arguments of the call inside `try` can raise themselves")
-        _, act = self.pending.pop()
+        if len(self.pending) != n0 + 1:
+            self.bad(s, "the expression inside `try` must contain exactly one operation that can raise (an opaque raising "
+                        "call / method / run-time column lookup)")
+        tv, act = self.pending.pop()
         ev = self.fresh("e")
-        catches = "(fun " + ev + " => " + " || ".join(f"decide ({ev} = {exc_of(c)})" for c in dict.fromkeys(exc_of(c) and c for c in classes)) + ")"
-        tv = self.fresh("t")
-        env_ok = dict(env)
+        catches = "(fun " + ev + " => " + " || ".join(f"decide ({ev} = {exc_of(c)})" for c in dict.fromkeys(classes)) + ")" \
+            if classes else "PySM.catchesAll"
         x = st.targets[0].id
-        env_ok[x] = Val(mangle(x), v.ty)
-        ok_code = f"{pad}    let {mangle(x)} := {tv};\n" + self.blk(rest, env_ok, k, ind + 2, ctx)
+        if h.type is None:
+            if x not in env or env[x].code is None:
+                self.bad(s, f"`except: pass` leaves {x} without a value")
+            hcode = self.coerce_sm(env[x], v.ty, s)
+            env2 = dict(env)
+            env2[x] = Val(mangle(x), v.ty)
+            return (pre0 + f"{pad}Except.bind (PySM.tryCatch {act} {catches} (fun {tv} => Except.ok {v.code}) "
+                    f"(fun _ => Except.ok {hcode})) fun {mangle(x)} =>\n" + self.blk(rest, env2, k, ind, ctx))
+        decl = self.spec.get("locals", {}).get(x)
+        xv = Val(v.code, v.ty) if decl is None or v.ty == decl else Val(self.coerce_sm(v, decl, s), decl)
+        if len(h.body) == 1 and isinstance(h.body[0], ast.Assign) and len(h.body[0].targets) == 1 \
+                and isinstance(h.body[0].targets[0], ast.Name) and h.body[0].targets[0].id == x:
+            # the handler only gives x another value: both paths meet again (no copy of what follows)
+            n1 = len(self.pending)
+            hv = self.expr(h.body[0].value, env)
+            if len(self.pending) == n1:
+                ty = decl if decl is not None else xv.ty
+                hcode = self.coerce_sm(hv, ty, s)
+                okc = xv.code if xv.ty == ty else self.coerce_sm(xv, ty, s)
+                env2 = dict(env)
+                env2[x] = Val(mangle(x), ty)
+                return (pre0 + f"{pad}Except.bind (PySM.tryCatch {act} {catches} (fun {tv} => Except.ok {okc}) "
+                        f"(fun _ => Except.ok {hcode})) fun {mangle(x)} =>\n" + self.blk(rest, env2, k, ind, ctx))
+            del self.pending[n1:]
+        env_ok = dict(env)
+        env_ok[x] = Val(mangle(x), xv.ty)
+        ok_code = f"{pad}    let {mangle(x)} := {xv.code};\n" + self.blk(rest, env_ok, k, ind + 2, ctx)
         err_code = self.blk(list(h.body) + rest, env, k, ind + 2, ctx)
         return (pre0 + f"{pad}PySM.tryCatch {act} {catches}\n{pad}  (fun {tv} =>\n{ok_code})\n"
                 f"{pad}  (fun _ =>\n{err_code})")
@@ -1920,6 +2176,14 @@ class FnSM(P.Fn):
                 (_recs(spec["iter_self"]["item"]) if self.uses_iter_self else []) + (_recs(spec["field_of"]) if self.uses_field_of else []) + (_recs(self.yield_ty) if self.yield_ty else []) + (_recs(spec["csv_rows"]) if self.uses_rows else []):
             if r not in recs:
                 recs.append(r)
+        extra_tys = [t_ for pat in self.used_opaque_exprs for t_ in list(spec["opaque_exprs"][pat]["args"]) + [spec["opaque_exprs"][pat]["ret"]]] + \
+            ([spec["dyn_column"]["ret"]] if self.uses_dyn_column else []) + [REC(r_) for (_, r_) in self.used_str_injections] + \
+            [t_ for (_, t_) in self.used_cells] + (list(self.STREAMS["file'"].item.item and [self.STREAMS["file'"]]) if "file'" in self.declared_streams else []) + \
+            [spec["rec_methods"][r_][m_]["ret"] for (r_, m_) in self.used_rec_methods] + [REC(r_) for (r_, m_) in self.used_rec_methods]
+        for t in extra_tys:
+            for r in _recs(t):
+                if r not in recs:
+                    recs.append(r)
         seen, opq_params = set(), []
         for k_, o in spec.get("opaque", {}).items():
             if k_ in self.used_opaque and o["lean"] not in seen:
@@ -1944,6 +2208,19 @@ class FnSM(P.Fn):
             opq_params.append(f"({r_}_set_{a_} : {r_} → {lty(t_)} → {r_})")
         for (inj_, rt_) in self.used_injections:
             opq_params.append(f"({inj_} : Int → {rt_})")
+        for (pn_, r_) in self.used_preds:
+            opq_params.append(f"({pn_} : {r_} → Bool)")
+        for pat in spec.get("opaque_exprs", {}):
+            if pat in self.used_opaque_exprs:
+                opq_params.append(f"({spec['opaque_exprs'][pat]['lean']} : {opaque_sig(spec['opaque_exprs'][pat])})")
+        if self.uses_dyn_column:
+            opq_params.append(f"({spec['dyn_column']['lean']} : {lty(self.self_fields['catalog'][1])} → String → "
+                              f"PySM.M {P._paren(lty(spec['dyn_column']['ret']))})")
+        for (inj_, rt_) in self.used_str_injections:
+            opq_params.append(f"({inj_} : String → {rt_})")
+        corder_ = list(spec.get("cell_of", {}).values())
+        for (inj_, t_) in sorted(self.used_cells, key=lambda u: corder_.index(u[0])):
+            opq_params.append(f"({inj_} : {lty(t_)} → Cell)")
         for (on_, ot_, it_) in self.used_obj_iters:
             opq_params.append(f"(iter_{on_} : {ot_} → PySM.M ((List {P._paren(lty(it_))}) × {ot_}))")
         if self.uses_iter_self:
@@ -2035,11 +2312,38 @@ def _recs(t):
         return []
     if t.kind == "rec":
         return [t.item]
-    if t.kind in ("list", "opt"):
+    if t.kind in ("list", "opt", "dict"):
         return _recs(t.item)
-    if t.kind == "tuple":
+    if t.kind in ("tuple", "sum"):
         return [r for x in t.item for r in _recs(x)]
     return []
+
+
+def _match_pattern(pat, e):
+    """structural match of expression `e` against `pat`, whose single Name `_` is a hole: the sub-expression in the hole, or None"""
+    found = []
+
+    def go(p_, x):
+        if isinstance(p_, ast.Name) and p_.id == "_":
+            found.append(x)
+            return True
+        if type(p_) is not type(x):
+            return False
+        for f in p_._fields:
+            a, b = getattr(p_, f, None), getattr(x, f, None)
+            if isinstance(a, list):
+                if not isinstance(b, list) or len(a) != len(b) or not all(
+                        (go(u, w) if isinstance(u, ast.AST) else u == w) for u, w in zip(a, b)):
+                    return False
+            elif isinstance(a, ast.AST):
+                if isinstance(a, (ast.Load, ast.Store)):
+                    continue
+                if not isinstance(b, ast.AST) or not go(a, b):
+                    return False
+            elif a != b:
+                return False
+        return True
+    return found[0] if go(pat, e) and len(found) == 1 else None
 
 
 def _strlit(s):
@@ -2257,6 +2561,31 @@ TARGETS = [
                                                  ret=REC("DtDict"), raises=True),
                  "datetime.datetime": dict(lean="mk_datetime", args=[INT, INT, INT, INT, INT, INT], ret=REC("Dt"), raises=True),
                  "datetime_to_utc_epoch": dict(lean="datetime_to_utc_epoch", args=[REC("Dt")], ret=INT)}),
+    # C14: `write_ascii`. The file is the hidden stream `file'` (its records); the catalog array = list of opaque rows with
+    # typed columns; ids are opaque values (bytes or str): `decode` raises AttributeError on a str; the time text is ONE opaque
+    # function of the epoch (pattern); the cells of a record are opaque injections of the values by type.
+    dict(file="csep/core/catalogs.py", func="AbstractBaseCatalog.write_ascii", lean="write_ascii", prop="C14", also=[],
+         module="C14W", label="catalogs.write_ascii", procedure=True,
+         params=dict(filename=Ty("file"), write_header=BOOL, write_empty=BOOL, append=BOOL, id_col=STR),
+         self_fields={"catalog": ("catalog", LIST(ROW)), "catalog_id": ("catalog_id", OPT(INT))},
+         columns={"longitude": F64, "latitude": F64, "magnitude": F64, "origin_time": INT, "depth": F64},
+         locals=dict(event_ids=LIST(REC("IdVal"))), str_as={"IdVal": "id_of_str"},
+         dyn_column=dict(lean="id_column", ret=LIST(REC("IdVal"))),
+         rec_methods={"IdVal": {"decode": dict(args=[STR], ret=REC("IdVal"), raises=True)}},
+         opaque_exprs={"str(epoch_time_to_utc_datetime(_).replace(tzinfo=None)).replace(' ', 'T')":
+                       dict(lean="time_string", args=[INT], ret=STR, raises=True)},
+         cell_of={"str": "cell_str", "f64": "cell_f64", "opt[int]": "cell_optint", "rec[IdVal]": "cell_id"}),
+    # C14: `to_dict`. `self.__dict__` is a dict of opaque attribute values (`callable`, `hasattr(…, 'to_dict')` opaque
+    # predicates, `v.to_dict()` an opaque raising method); the result dict holds attribute values and, under 'catalog', the
+    # rows of `self.catalog.tolist()` (opaque items; `decode` raises on what is not bytes: caught, item kept).
+    dict(file="csep/core/catalogs.py", func="AbstractBaseCatalog.to_dict", lean="catalog_to_dict", prop="C14", also=[],
+         module="C14W", label="catalogs.to_dict", params={},
+         self_fields={"__dict__": ("dict'", DICT(REC("Attr"))), "catalog": ("catalog", REC("Arr"))},
+         locals=dict(out=DICT(SUM(REC("Attr"), LIST(LIST(REC("Item"))))), new_line=LIST(REC("Item"))),
+         rec_preds={"Attr": {"callable": "Attr_callable", "hasattr:to_dict": "Attr_has_to_dict"}},
+         rec_methods={"Attr": {"to_dict": dict(args=[], ret=REC("Attr"), raises=True)},
+                      "Arr": {"tolist": dict(args=[], ret=LIST(LIST(REC("Item"))))},
+                      "Item": {"decode": dict(args=[STR], ret=REC("Item"), raises=True)}}),
     # C12: the decoder state machine of the catalog-forecast loader (a generator): `prev_id` / `events` / placeholder rows,
     # one catalog per id. Specialisation: `filename` is a regular file; the rows `csv.reader` hands to the loop are the
     # parameter `rows'` (tokenisation and the field parsing of the nested helper `read_catalog_line` are separate layers:
